@@ -6,7 +6,8 @@
    are the oracle functions for time.Time's UnmarshalJSON and base64
    (encoding/json), arbitrary in every theorem below. *)
 From JV Require Import Model.Base Model.GoTime Gen.TypeGo Model.Schema Model.Value
-  Model.Strconv Model.Json Model.Attr Proofs.StrconvFacts Proofs.C06Facts.
+  Model.Strconv Model.Json Model.Attr Model.SoftRes Model.Wrapper Model.Resource Model.Unmarshal
+  Proofs.StrconvFacts Proofs.SoftFacts Proofs.WrapperFacts Proofs.C06Facts Proofs.C06Resource Proofs.C05Mixed.
 
 (* integers: accepted only within the declared width and signedness, stored unchanged *)
 Theorem C06_int : forall e a lit v,
@@ -85,6 +86,67 @@ Theorem C06_int_roundtrip : forall e a z,
   unmarshal_to_type e a (JNum (itoa z)) = Ok (wrap_null a (VInt (acode a) z)).
 Proof. exact unmarshal_int_roundtrip. Qed.
 Print Assumptions C06_int_roundtrip.
+
+(* Resource level (soft types): whenever a payload is accepted, every attribute
+   present in its attributes object holds exactly what [unmarshal_to_type]
+   gives for its JSON value (the theorems above say what that is), every
+   relationship with a data member holds exactly the IDs listed (in the
+   payload's order), every field absent from the payload -- or a relationship
+   without data -- holds its zero value, and the id is the payload's.
+   [dec_resske] is the tree-level model of decoding the skeleton (later
+   duplicates win, case-folded names); [k_attrs k] / [k_rels k] are "the
+   attributes / relationships present in the payload". *)
+Theorem C06_resource_values : forall e s j r,
+  sch_wrapped s = [] ->
+  (forall k, dec_resske j = Some k -> wf_res_type (get_type (sch_schema s) (k_type k))) ->
+  unmarshal_resource e s j = Ok (RSoft r) ->
+  exists k, dec_resske j = Some k /\
+    let t := get_type (sch_schema s) (k_type k) in
+    s_type r = t /\ soft_get r "id" = VStr (k_id k) /\
+    (forall n jv, lookup n (k_attrs k) = Some jv ->
+       exists a v, lookup n (tattrs t) = Some a /\ unmarshal_to_type e a jv = Ok v /\ soft_get r n = v) /\
+    (forall n a, lookup n (tattrs t) = Some a -> lookup n (k_attrs k) = None ->
+       soft_get r n = zero_value (acode a) (anull a)) /\
+    (forall n rs dj, lookup n (k_rels k) = Some rs -> rs_data rs = Some dj ->
+       exists x, lookup n (trels t) = Some x /\
+         (if to_one x then exists i, dec_identifier dj = Some i /\ soft_get r n = VStr (i_id i)
+          else exists l, dec_identifiers dj = Some l /\ soft_get r n = VStrs false (ids_of l))) /\
+    (forall n x, lookup n (trels t) = Some x ->
+       (forall rs, lookup n (k_rels k) = Some rs -> rs_data rs = None) ->
+       soft_get r n = if to_one x then VStr "" else VStrs false []).
+Proof. exact accepted_resource_values. Qed.
+Print Assumptions C06_resource_values.
+
+(* The same for struct-backed types ([sch_ok]: structs Wrap accepts, schema
+   types the built ones): the result is a struct whose Get reads, for every
+   attribute present, what [unmarshal_to_type] gives (a nil pointer reading
+   as nil: [read_slot]), for every relationship with data the IDs listed, the
+   payload's id, and for every other field what the zero struct reads. *)
+Theorem C06_resource_values_wrapped : forall e s j r d,
+  sch_ok s ->
+  (forall k, dec_resske j = Some k ->
+     lookup (tname (get_type (sch_schema s) (k_type k))) (sch_wrapped s) = Some d) ->
+  unmarshal_resource e s j = Ok r ->
+  exists k w', dec_resske j = Some k /\ r = RWrap w' /\
+    let t := get_type (sch_schema s) (k_type k) in
+    wrapper_get w' "id" = Ok (VStr (k_id k)) /\
+    (forall n jv, lookup n (k_attrs k) = Some jv ->
+       exists a v, lookup n (tattrs t) = Some a /\ unmarshal_to_type e a jv = Ok v /\
+                   wrapper_get w' n = Ok (read_slot v)) /\
+    (forall n rs dj, lookup n (k_rels k) = Some rs -> rs_data rs = Some dj ->
+       exists x, lookup n (trels t) = Some x /\
+         (if to_one x then exists i, dec_identifier dj = Some i /\ wrapper_get w' n = Ok (VStr (i_id i))
+          else exists l, dec_identifiers dj = Some l /\ wrapper_get w' n = Ok (VStrs false (ids_of l)))) /\
+    (forall w0, wrap d (zero_vals d) = Ok w0 ->
+       forall n, n <> "" -> n <> "id" -> lookup n (k_attrs k) = None ->
+       (forall rs, lookup n (k_rels k) = Some rs -> rs_data rs = None) ->
+       wrapper_get w' n = wrapper_get w0 n).
+Proof. exact accepted_resource_values_wrapped. Qed.
+Print Assumptions C06_resource_values_wrapped.
+
+(* NOT PROVED here (correspondence + oracle): that re-marshaling reproduces
+   the payload's values as the same JSON values (decided by an independent
+   denotation oracle on the Go side). *)
 
 (* non-vacuity and the boundary cases the property names *)
 Example c06_int8_edges : forall e,
